@@ -24,6 +24,7 @@ from exabgp.reactor.api.dispatch.common import (
     Handler,
     NoMatchingPeers,
     dispatch,
+    is_selector_start,
 )
 
 if TYPE_CHECKING:
@@ -179,6 +180,15 @@ def dispatch_v6(
 
     # Some handlers require all peers if none specified
     if handler in _v6_needs_peers() and not peers:
+        # a selector which matches no peer must not be read as "every peer"
+        selector_given = (
+            len(token_list) > 1
+            and token_list[0] == 'peer'
+            and token_list[1] not in tree['peer']
+            and is_selector_start(token_list[1])
+        )
+        if selector_given:
+            raise NoMatchingPeers(command)
         peers = list(reactor.peers(service))
         if not peers:
             raise NoMatchingPeers(command)
